@@ -195,6 +195,42 @@ class ApiModel(object):
             if st not in ("ok", "f1"):
                 self.disagree("translation-ignores-current-table", "decoder(%s) = %s under model table: %s" % (p, r[1], detail))
 
+    def op_utilities(self, rng, pool_d):
+        """The other public functions, interleaved with the configuration and translation calls (state carried
+        between calls of different API functions): results are checked against their own simple laws."""
+        sf = self.sf
+        x = rng.choice(pool_d)
+        self.log.append(["utilities", x[:200]])
+        try:
+            toks = list(sf.split_selfies(x))
+            ok = "".join(toks) == x and sf.len_selfies(x) == len(toks)
+            alpha = sf.get_alphabet_from_selfies([x, "", x])
+            ok = ok and alpha == set(t for t in toks if t != ".")
+            voc = sorted(alpha | {"[nop]", "."})
+            stoi = {s: i for i, s in enumerate(voc)}
+            lab = sf.selfies_to_encoding(x, stoi, pad_to_len=len(toks) + 2, enc_type="label")
+            ok = ok and lab == [stoi[t] for t in toks] + [stoi["[nop]"]] * 2
+            ok = ok and sf.encoding_to_selfies(lab, {i: s for s, i in stoi.items()}, "label") == x + "[nop][nop]"
+        except Exception as e:   # noqa
+            ok = False
+            self.disagree("utility-raises-in-history", "%s: %r" % (type(e).__name__, e))
+            return
+        self.ctx.count("ops.utilities")
+        if not ok:
+            self.disagree("utility-law-broken-in-history", "split/len/alphabet/encoding laws do not hold for %r" % x[:200])
+
+    def op_set_default_form(self, rng):
+        """set_semantic_constraints() with no argument = the 'default' preset (documented default argument)."""
+        self.log.append(["set", "default"])
+        r = call_guard(lambda: self.sf.set_semantic_constraints())
+        if r[0] != "ok":
+            self.disagree("valid-update-rejected", "set_semantic_constraints() with no argument: %r" % (r,))
+            return
+        self.model = dict(tablegen.PRESETS["default"])
+        self.added, self.removed = set(), set()
+        self.ctx.count("ops.set_preset")
+        self.ctx.count("ops.set_default_form")
+
     def op_translate(self, rng, pool_d, pool_e):
         if rng.random() < 0.6:
             x = rng.choice(pool_d)
@@ -220,7 +256,9 @@ class ApiModel(object):
 
     def step(self, rng, pool_d, pool_e):
         op = rng.random()
-        if op < 0.12:
+        if op < 0.02:
+            self.op_set_default_form(rng)
+        elif op < 0.12:
             self.op_set_preset(rng)
         elif op < 0.22:
             self.op_set_custom(rng)
@@ -236,7 +274,9 @@ class ApiModel(object):
             self.op_get_alphabet(rng)
         elif op < 0.80:
             self.op_mutate_passed(rng)
-        elif op < 0.88:
+        elif op < 0.86:
             self.op_probe_decode(rng)
+        elif op < 0.90:
+            self.op_utilities(rng, pool_d)
         else:
             self.op_translate(rng, pool_d, pool_e)
